@@ -500,6 +500,9 @@ def _main(mod, prop, args, seed, t0):
     py_selftest = {"ops": len(st), "disagreements": 0}
 
     # ---- 2./3. correspondence + oracle
+    import anchorcov
+
+    anchorcov.start(VERIF, REPO, prop)  # measures which anchored lines the cases execute (evidence only)
     if args.replay:
         payload = json.load(open(os.path.join(VERIF, args.replay) if not os.path.isabs(args.replay) else args.replay))
         cases = [payload["case"]] if "case" in payload else []
@@ -507,6 +510,10 @@ def _main(mod, prop, args, seed, t0):
         rng = Rng(seed)
         cases = list(mod.cases(tier, rng))
     results, t_impl, t_model = evaluate(mod, cases) if cases else ([], 0.0, 0.0)
+    try:
+        anchor_cov = anchorcov.stop()
+    except Exception as e:  # a measurement must never break a run
+        anchor_cov = {"anchor_line_coverage": {"error": repr(e)}}
 
     seen = set()
     nontrivial = 0
@@ -652,6 +659,7 @@ def _main(mod, prop, args, seed, t0):
         "repo": REPO,
         "explanation": "proof: Lean theorems about the executable model (obligations/discharged); the model is tied to /repo's working tree by running both on the same cases in this run (evaluations) and the property is additionally evaluated directly on the implementation's answers (oracle)",
     }
+    cov.update(anchor_cov)
     if hasattr(mod, "extra_coverage"):
         try:
             cov.update(mod.extra_coverage(results))
